@@ -1,5 +1,5 @@
 use crate::sync::{Condvar, Mutex};
-use crate::tree_store::TransactionalMemory;
+use crate::tree_store::{BtreeHeader, TransactionalMemory};
 use crate::{Key, Result, Savepoint, TypeName, Value};
 use alloc::collections::BTreeSet;
 use alloc::collections::btree_map::BTreeMap;
@@ -292,6 +292,25 @@ impl TransactionTracker {
             .or_insert(1);
 
         Ok(id)
+    }
+
+    // Registers a read of the latest commit and returns that commit's data root along with its
+    // id. The root must be the registered commit's: a reader that registered one commit but read
+    // the root of a later one would be reading pages nothing pins, which the next non-durable
+    // commit is free to reclaim.
+    pub(crate) fn register_read_transaction_with_root(
+        &self,
+        mem: &TransactionalMemory,
+    ) -> Result<(TransactionId, Option<BtreeHeader>)> {
+        let mut state = self.state.lock()?;
+        let (id, root) = mem.get_last_committed_transaction_and_data_root()?;
+        state
+            .live_read_transactions
+            .entry(id)
+            .and_modify(|x| *x += 1)
+            .or_insert(1);
+
+        Ok((id, root))
     }
 
     pub(crate) fn deallocate_read_transaction(&self, id: TransactionId) {
